@@ -115,11 +115,22 @@ PROPS = {
         "assumptions": COMMON_ASSUMPTIONS + ["the distance function is symmetric and NaN-free on the data", "init_dist, when supplied and used, is truthful (docstring contract)"],
     },
     "C03": {
-        "harness": "c03", "level": "other", "category": "other", "design_ref": "DESIGN.md 5/C03, 7", "translators": [],
-        "technique": "Lean 4 proof of the provable clauses (single-leaf exactness, delivery of every discovered pair to both endpoints) + bit-exact correspondence; recall floors only measured (sampling)",
+        "harness": "c03", "level": "other", "category": "other", "design_ref": "DESIGN.md 5/C03, 7", "translators": ["kernels"],
+        "technique": "Lean 4 proof of the provable clauses (single-leaf exactness, delivery of every discovered pair to both endpoints) + refinement theorems over the regenerated Lean translations of generate_leaf_updates and generate_graph_updates + bit-exact correspondence; recall floors only measured (sampling)",
         "text": "PARTIAL. Proved in Lean for the literal NN-descent model: single_leaf_exact (when one leaf holds all points the graph after leaf "
                 "initialisation is the exact k-NN graph up to ties, for every n, k, metric), local_join_delivers_both (+_high): every discovered "
                 "pair is offered to both endpoints in both memory modes, rows are exactly the feed of those offers; C13 gives monotone improvement. "
+                "For the two pair generators the tie between model and code is a theorem: harness/translate_kernels.py re-translates its source "
+                "on every run (dist a function parameter on rows of data, one update list per leaf row starting with the (-1, -1, inf) "
+                "placeholder, both breaks, range(i + 1, ..), the short-circuit threshold test) and kernel_generate_leaf_updates_refines proves "
+                "that for every rectangular leaf block whose non-negative entries are row numbers the translated kernel never leaves an array, "
+                "list r of its result is the placeholder followed by exactly the model's leafUpdates of row r (every pair i < j of the valid "
+                "prefix beating one of the two thresholds, in the code's order), and every triple satisfies OkTriple, the precondition of the "
+                "appliers' refinement theorems (C12); kernel_generate_graph_updates_refines: the same for the local join generate_graph_updates "
+                "against the model's joinUpdates (new x new from the candidate's own position on, self pair included, then new x old, negative "
+                "entries skipped, test <=), so that local_join_delivers_both speaks about updates the generated kernel produced; both translations "
+                "are executed by the driver (gk_leafupd, gk_graphupd, dist = squared euclidean) against the numba kernels on generated blocks "
+                "(holes, short rows, infinite / zero thresholds) on every run. "
                 "Tied to the code by the bit-exact nn_descent correspondence and an API check that a dataset fitting one leaf yields the exact graph. "
                 "The 90 % / 80 % recall floors are statistical statements about a randomised heuristic: they are MEASURED on seeded well-conditioned "
                 "families (uniform, gaussian, clustered, manifold, sparse topic mixture, binary prototypes x metric families x memory mode x tree_init "
